@@ -176,6 +176,11 @@ def run(ctx):
         eng.mutation_schedules(topo, spec, muts, invariant='C02', bounds=bounds, timeout=120 if ctx.quick else 900, sim=sim, **kw)
     for topo, spec, num, depth, kw in sc['conf']:
         eng.conformance(topo, spec, num, depth, **kw)
+    # every transition of the 2-filter model replayed on the real code (prompt; thorough: free interleaving and kill/restart)
+    eng.cover(topos.chain2(maxseq=1), 'SpecPrompt')
+    if not ctx.quick:
+        eng.cover(topos.chain2(maxseq=1), 'Spec', bounds=dict(pq=5, rq=2, lq=2))
+        eng.cover(topos.chain2(maxseq=1, conn_ticks=2), 'SpecPrompt', max_faults=1, fault_kinds=['kill'], victims=['S', 'K'], max_paths=4000)
     for topo, n, steps, pt, pd, faults in sc['rand']:
         eng.random_runs(topo, n, steps, p_timeout=pt, p_drop=pd, faults=kill_faults if faults else None, tag='rand', validate=3 if ctx.quick else 25)
     content_check(eng, rep, ctx, 18 if ctx.quick else 300)
